@@ -136,6 +136,36 @@ def json_ops(doc):
     add('matrix_type-dense-raw', 'mtype', None,
         lambda d: d.__setitem__('matrix_type', 'dense'))
     add('matrix_type-dense-reencoded', 'mtype', None, _to_dense)
+    # dense documents (the format allows them, the library writes sparse):
+    # nothing is demanded of the verdict, but one reported valid must load
+    # to the shape, ids and values it declares (third clause)
+    def dense_then(f):
+        def g(d):
+            _to_dense(d)
+            f(d)
+        return g
+
+    def _empty_axis(d, key, k):
+        if not d['data'] or not d['data'][0]:
+            raise Skip()
+        d[key] = []
+        d['shape'][k] = 0
+    add('dense:empty-rows-data-kept', 'dense', None,
+        dense_then(lambda d: _empty_axis(d, 'rows', 0)))
+    add('dense:empty-columns-data-kept', 'dense', None,
+        dense_then(lambda d: _empty_axis(d, 'columns', 1)))
+    add('dense:row-dropped', 'dense', None,
+        dense_then(lambda d: d['data'].pop() if len(d['data']) > 0
+                   else None))
+    add('dense:row-longer', 'dense', None,
+        dense_then(lambda d: d['data'][0].append(1.0) if d['data']
+                   else None))
+    add('dense:row-shorter', 'dense', None,
+        dense_then(lambda d: d['data'][-1].pop() if d['data'] and
+                   d['data'][-1] else None))
+    add('dense:value-text', 'dense', None,
+        dense_then(lambda d: d['data'][0].__setitem__(0, 'x')
+                   if d['data'] and d['data'][0] else None))
     add('matrix_type-unknown', 'mtype', None,
         lambda d: d.__setitem__('matrix_type', 'csr'))
     for et in ('int', 'unicode', 'complex', 'Float', 'INT', 'Int', 'FLOAT'):
